@@ -14,7 +14,56 @@ var (
 	mu     sync.Mutex
 	locs   = map[string]*time.Location{}
 	missed = map[string][]Day{}
+	gaps   = map[string][]Gap{}
 )
+
+// Gap is an interval of civil time that a zone skipped: the local clock jumped from the civil time
+// (Y, M, D, H, Mi, S) forward by Len seconds.
+type Gap struct {
+	Y, M, D, H, Mi, S int
+	Len               int
+}
+
+// At returns the civil time off seconds after the beginning of the gap.
+func (g Gap) At(off int) (y, mo, d, h, mi, s int) {
+	t := time.Date(g.Y, time.Month(g.M), g.D, g.H, g.Mi, g.S+off, 0, time.UTC)
+	return t.Year(), int(t.Month()), t.Day(), t.Hour(), t.Minute(), t.Second()
+}
+
+// Gaps lists the forward jumps of the zone's local clock between 1900 and 2100 (daylight saving begins,
+// a standard-time change eastwards), found by walking the zone's offset changes.
+func Gaps(name string) []Gap {
+	mu.Lock()
+	if v, ok := gaps[name]; ok {
+		mu.Unlock()
+		return v
+	}
+	mu.Unlock()
+	loc := Load(name)
+	var out []Gap
+	if loc != nil {
+		t := time.Date(1900, 1, 1, 0, 0, 0, 0, time.UTC).In(loc)
+		end := time.Date(2100, 1, 1, 0, 0, 0, 0, time.UTC)
+		for i := 0; i < 2000 && t.Before(end); i++ {
+			_, e := t.ZoneBounds()
+			if e.IsZero() {
+				break
+			}
+			_, before := e.Add(-time.Second).Zone()
+			_, after := e.Zone()
+			if after > before {
+				l0 := e.Add(-time.Second).In(loc)
+				c := time.Date(l0.Year(), l0.Month(), l0.Day(), l0.Hour(), l0.Minute(), l0.Second()+1, 0, time.UTC)
+				out = append(out, Gap{c.Year(), int(c.Month()), c.Day(), c.Hour(), c.Minute(), c.Second(), after - before})
+			}
+			t = e
+		}
+	}
+	mu.Lock()
+	gaps[name] = out
+	mu.Unlock()
+	return out
+}
 
 // Load returns the zone, or nil if the tz database at hand does not know it.
 func Load(name string) *time.Location {
